@@ -30,7 +30,9 @@ const (
 	VerifEvStartRefused = "start.refused"    // under Lock: srv.started was already true
 	VerifEvStarted      = "start.started"    // under Lock: init() done, started = true
 	VerifEvShutRefused  = "shutdown.refused" // under Lock: srv.started was false
-	VerifEvShutBegin    = "shutdown.begin"   // under Lock: started = false, deadlines moved, listener closed; a = len(conns)
+	VerifEvShutBegin    = "shutdown.begin"   // under Lock: started = false just stored, nothing closed or unblocked yet
+	VerifEvShutUnlock   = "shutdown.unlock"  // under Lock, last statement before Unlock: deadlines moved, listener closed; a = len(conns)
+	VerifEvIsStarted    = "is.started"       // under RLock in isStarted(): a = value read
 	VerifEvConnReg      = "conn.reg"         // under Lock: conns[rw] inserted; a = conn id
 	VerifEvConnUnreg    = "conn.unreg"       // under Lock: conns[rw] deleted; a = conn id
 	VerifEvReadDL       = "read.dl"          // under RLock: a = conn id, b = value of srv.started (1: the deadline was just set)
